@@ -30,6 +30,8 @@ func main() {
 		vlib.Group{Name: "negative-weight", Gen: genNegativeWeight},
 		vlib.Group{Name: "lazy-iterators", Gen: genLazyIterators},
 		vlib.Group{Name: "profile", Gen: genProfile},
+		vlib.Group{Name: "profile-consistency", Gen: genProfileConsistency},
+		vlib.Group{Name: "profile-louvain", Gen: genProfileLouvain},
 		vlib.Group{Name: "profile-multiplex", Gen: genProfileMultiplex},
 		vlib.Group{Name: "expanded-chain", Gen: genExpandedNil})
 	// second phase: the big spaces
@@ -37,7 +39,5 @@ func main() {
 		_, large := phases(p.gen)
 		groups = append(groups, vlib.Group{Name: p.name + "-large", Gen: large})
 	}
-	// must stay last, see genHITSEdgeless
-	groups = append(groups, vlib.Group{Name: "hits-edgeless", Gen: genHITSEdgeless})
 	vlib.Main("C15", groups...)
 }
